@@ -165,7 +165,7 @@ def build_equilibrium(desc, workdir):
 
         inp = g_inputs(desc["eq"])
         entry = desc.get("entry", "api")
-        if entry == "api":
+        if entry in ("api", "api-inconsistent"):
             eq = tokamak.TokamakEquilibrium(
                 inp["R1D"].copy(),
                 inp["Z1D"].copy(),
@@ -192,6 +192,106 @@ def build_equilibrium(desc, workdir):
     raise ValueError("unknown family %r" % fam)
 
 
+def write_geqdsk_for(desc, path):
+    """geqdsk file of a G-family equilibrium, written by the harness' reference writer."""
+    from vf.families import g_inputs
+    from vf.props.c17 import ref_write
+
+    import numpy
+
+    inp = g_inputs(desc["eq"])
+    R, Z = inp["R1D"], inp["Z1D"]
+    nx, ny = len(R), len(Z)
+    crit = inp["crit"]
+    # the format defines the profile grid as linspace(simagx, sibdry, nx): normalised psi 0..1
+    ext = 1.0
+    t = numpy.linspace(0.0, 1.0, nx)
+    fc = desc["eq"].get("fpol") or [1.0, 0.0, 0.0, 0.0]
+    fpol = fc[0] * (1.0 + fc[1] * t + fc[2] * t * t + fc[3] * t**3)
+    pc = desc["eq"].get("pres")
+    pres = [0.0] * nx if pc is None else pc[0] * (1.0 + pc[1] * t + pc[2] * t * t + pc[3] * t**3)
+    psi_o, psi_x = crit["o"][2], crit["x"][0][2]
+    d = {
+        "nx": nx, "ny": ny,
+        "rdim": float(R[-1] - R[0]), "zdim": float(Z[-1] - Z[0]), "rcentr": float(0.5 * (R[0] + R[-1])),
+        "rleft": float(R[0]), "zmid": float(0.5 * (Z[0] + Z[-1])),
+        "rmagx": crit["o"][0], "zmagx": crit["o"][1],
+        "simagx": psi_o, "sibdry": psi_o + ext * (psi_x - psi_o),
+        "bcentr": float(fpol[0]) / crit["o"][0], "cpasma": 1.0e5,
+        "fpol": [float(v) for v in fpol], "pres": [float(v) for v in pres], "qpsi": [1.0] * nx,
+        "psi": [[float(inp["psi2D"][i, j]) for j in range(ny)] for i in range(nx)],
+        "rlim": [p[0] for p in inp["wall"]], "zlim": [p[1] for p in inp["wall"]],
+    }
+    text = ref_write(d, {"plus": False, "echar": "E", "chunk": 5, "sep": ""})
+    with open(path, "w") as f:
+        f.write(text)
+    return text
+
+
+def run_cli(desc, casedir):
+    """Entry points exactly as a user runs them: scripts' main() with sys.argv, in casedir."""
+    import runpy
+    import shutil
+
+    import yaml
+
+    entry = desc["entry"]
+    old_argv, old_cwd = sys.argv, os.getcwd()
+    os.chdir(casedir)
+    out = None
+    try:
+        if entry == "example-script":
+            src = os.path.join(os.environ.get("VF_REPO", "/repo"), "examples", "tokamak")
+            for fn in os.listdir(src):
+                if fn.endswith((".yaml", ".py")):
+                    shutil.copy(os.path.join(src, fn), casedir)
+            sys.argv = ["tokamak_example.py", desc["geometry"], "--no-plot", "--nx", str(desc.get("nx", 65)), "--ny", str(desc.get("ny", 65))]
+            runpy.run_path(os.path.join(casedir, "tokamak_example.py"), run_name="__main__")
+            out = "bout.grd.nc"
+        elif entry == "geqdsk-cli":
+            write_geqdsk_for(desc, os.path.join(casedir, "input.geqdsk"))
+            if "yaml_file" in desc:
+                shutil.copy(os.path.join(os.environ.get("VF_REPO", "/repo"), desc["yaml_file"]), os.path.join(casedir, "opts.yaml"))
+                if desc.get("yaml_overrides"):
+                    with open(os.path.join(casedir, "opts.yaml")) as f:
+                        o = yaml.safe_load(f)
+                    o.update(desc["yaml_overrides"])
+                    with open(os.path.join(casedir, "opts.yaml"), "w") as f:
+                        yaml.safe_dump(o, f)
+            else:
+                with open(os.path.join(casedir, "opts.yaml"), "w") as f:
+                    yaml.safe_dump(desc.get("options", {}), f)
+            from hypnotoad.scripts import hypnotoad_geqdsk
+
+            sys.argv = ["hypnotoad-geqdsk", "input.geqdsk", "opts.yaml"]
+            hypnotoad_geqdsk.main()
+            with open(os.path.join(casedir, "opts.yaml")) as f:
+                o = yaml.safe_load(f) or {}
+            out = o.get("grid_file", "bout.grd.nc")
+        elif entry == "torpex-cli":
+            shutil.copy(os.path.join(os.environ.get("VF_REPO", "/repo"), desc["yaml_file"]), os.path.join(casedir, "torpex.yaml"))
+            from hypnotoad.scripts import hypnotoad_torpex
+
+            sys.argv = ["hypnotoad-torpex", "torpex.yaml", "--noplot"]
+            hypnotoad_torpex.main()
+            out = "torpex.grd.nc"
+        elif entry == "circular-cli":
+            with open(os.path.join(casedir, "opts.yaml"), "w") as f:
+                yaml.safe_dump(desc.get("options", {}), f)
+            from hypnotoad.scripts import hypnotoad_circular
+
+            sys.argv = ["hypnotoad-circular", "opts.yaml"]
+            hypnotoad_circular.main()
+            out = "bout.grd.nc"
+        else:
+            raise ValueError("unknown entry %r" % entry)
+        if out and os.path.exists(os.path.join(casedir, out)) and out != "grid.nc":
+            os.replace(os.path.join(casedir, out), os.path.join(casedir, "grid.nc"))
+    finally:
+        sys.argv = old_argv
+        os.chdir(old_cwd)
+
+
 def main(casedir):
     t0 = time.time()
     os.environ["MPLBACKEND"] = "Agg"
@@ -210,7 +310,18 @@ def main(casedir):
             numpy.seterr(all="ignore")
             from hypnotoad.core.mesh import BoutMesh
 
+            if desc.get("entry", "api") not in ("api", "api-inconsistent"):
+                run_cli(desc, casedir)
+                if not os.path.exists(os.path.join(casedir, "grid.nc")):
+                    raise RuntimeError("entry point returned without writing a grid file")
+                with open(os.path.join(casedir, "sidecar.pkl"), "wb") as f:
+                    pickle.dump({"cli": True}, f)
+                status["outcome"] = "grid"
+                return 0
             eq, options = build_equilibrium(desc, casedir)
+            if desc.get("entry") == "api-inconsistent":
+                options = dict(options)
+                options.update(desc["mesh_option_change"])
             if desc.get("stop_after") == "equilibrium":
                 side = {"eq_regions": {}}
                 for name, er in eq.regions.items():
